@@ -167,8 +167,9 @@ def _functional(name, spec, mon, extra_thorough=None):
 PARALLEL = _functional("parallel", "Parallel", "MonParallel", "Parallel_Cases_big.cfg")
 OPTIONS = _functional("options", "Options", "MonOptions")
 ADMISSION = _functional("admission", "Admission", "MonAdmission")
+STATUS = _functional("status", "Status", "MonStatus")
 
-MODULES = {"jobqueue": JOBQUEUE, "joblife": JOBLIFE, "cron": CRON, "dynconfig": DYNCONFIG, "parallel": PARALLEL, "options": OPTIONS, "admission": ADMISSION}
+MODULES = {"jobqueue": JOBQUEUE, "joblife": JOBLIFE, "cron": CRON, "dynconfig": DYNCONFIG, "parallel": PARALLEL, "options": OPTIONS, "admission": ADMISSION, "status": STATUS}
 
 PROPS = {
     "C05": {"modules": ["jobqueue", "cron"], "assumptions": [
@@ -188,6 +189,9 @@ JL_ASSUME = [
 ]
 for _p in ("C08", "C09", "C10", "C11", "C12", "C13"):
     PROPS[_p] = {"modules": ["joblife"], "assumptions": JL_ASSUME}
+for _p in ("C10", "C11"):
+    PROPS[_p] = {"modules": ["joblife", "status"], "assumptions": JL_ASSUME + [
+        "status derivation (Status module): Pods are drawn from the enumerated shapes (phase, deletion, startTime, deadline-exceeded, up to two containers in five states); a container that restarted (lastTerminationState) is outside them"]}
 
 CRON_ASSUME = [
     "TLC, the Json/IOUtils community modules, Go's tz database and the cronexpr library's single-expression Next (the pointwise due-set oracle) are trusted",
@@ -247,8 +251,8 @@ FORMULAS = {
     "C15": ["C15_Exact", "C15_Monotone", "C15_Covers"],
     "C08": ["C08_OneLive", "C08_Order", "C08_Delay", "C08_Gates"],
     "C09": ["C09_Keep", "C09_NotLost", "C09_NoForeignAdopt", "C09_AdmOnlyForeign", "C09_Listed", "C09_ForeignEnds"],
-    "C10": ["C10_SuccOnly", "C10_FailOnly", "C10_RefMatchesTask", "C10_NoLiveAtFinish", "C10_Reaches", "C10_Progress"],
-    "C11": ["C11_Coherent", "C11_Monotone"],
+    "C10": ["C10_SuccOnly", "C10_FailOnly", "C10_RefMatchesTask", "C10_NoLiveAtFinish", "C10_Reaches", "C10_Progress", "C10_TaskTruth", "C10_Result"],
+    "C11": ["C11_Coherent", "C11_Monotone", "C11_KeepTimes", "C11_LostKeeps", "C11_Deterministic", "C11_Total"],
     "C12": ["C12_DeleteJustified", "C12_ForceGate", "C12_KillSticky", "C12_KillCompletes", "C12_PendingCompletes"],
     "C13": ["C13_Order", "C13_OrderAll", "C13_TTLNotEarly", "C13_DeletionCompletes", "C13_TTLEventually"],
 }
@@ -272,7 +276,7 @@ LEVEL_TEXT = {
     "C09": "TLC checks on the JobLife design spec, with a fault or crash placed after every API call of a pass, that recorded tasks are kept, never marked lost/finished while their Pod is alive, foreign Pods are never adopted and end in AdmissionError, and that at quiescence every owned Pod is listed; the same formulas are evaluated on traces of the real controller under injected write faults (rejected and applied-but-error), crash/restart and cache lag.",
     "C10": "TLC checks on the JobLife design spec and on recorded traces of the real controller that a Success/Failed result is implied by the kubelet ground truth under the completion strategy, that recorded task results equal the Pods' real outcomes, that no owned task is alive when the Job first becomes finished, and that at the drained end every decided Job has reached its result and every undecided one has a live attempt.",
     "C11": "TLC evaluates status coherence (one condition, state/phase/counters consistent with tasks) on every logged Job version and monotonicity (startTime, finished, result, finish time, task timestamps, createdTasks) on every pair of consecutive versions, on the design spec and on all traces recorded from the real controller (user edits after finish are the only exemption, tracked by a ghost).",
-    "C12": "TLC checks that every controller-issued delete of a live task is justified (kill time reached, pending timeout reached in the pass's view, Job deleting, strategy decided in truth), that force deletion respects its timeout and the forbid switch, and that at the drained end kill and pending-timeout histories have completed; on the design spec exhaustively and on traces of the real controller with every kubelet behaviour.",
+    "C12": "A kill timestamp that has passed is never changed (the user's edits go through the real validating webhook; before it passes it may be moved or removed and the controller must follow). TLC checks that every controller-issued delete of a live task is justified (kill time reached, pending timeout reached in the pass's view, Job deleting, strategy decided in truth), that force deletion respects its timeout and the forbid switch, and that at the drained end kill and pending-timeout histories have completed; on the design spec exhaustively and on traces of the real controller with every kubelet behaviour.",
     "C13": "TLC checks that a Job leaves the API only when no task named in its status exists, that a TTL delete is never earlier than finish+TTL (job value or configured default) and only for decided Jobs, and that deletion/TTL complete at the drained end; on the JobLife design spec and on traces of the real controller.",
 }
 LEVEL_TEXT.update({
@@ -287,6 +291,12 @@ LEVEL_TEXT["C14"] = "A functional TLA+ specification (Parallel.tla) defines the 
 LEVEL_TEXT["C18"] = "A functional TLA+ specification (Options.tla) defines Eval(option, submitted value) for the five option types (default exactly when no value was given, trimming, required, allowed values unless custom, multi joining, bool formats, date parsing), Default(option), and Subst (highest-priority source per variable, reserved unknowns empty, other text untouched); TLC enumerates option configs x submitted values (672 cases) and substitution-source subsets (32), checks the specification's own laws (default agrees, null = absent, constraints) and each case is evaluated on the real EvaluateOptions / MakeDefaultOptions through the webhook's JSON decoding, or on the real pipeline JobConfig -> Job mutating webhook (configName, optionValues, substitutions) -> NewPod (image, args, env), 25 times each; TLC judges outcome equality and determinism."
 LEVEL_TEXT["C16"] = "A functional TLA+ specification (Admission.tla) defines the defaulted object of a Job request as a function of which optional fields are present (type, TTL, template, maxAttempts, pending timeout, parallelism strategy, restart policy, finalizers) and of the dynamic-config defaults, the result of configName expansion (owner reference, UID label and template always the JobConfig's; its concurrency policy only when none was given; explicit substitutions over option values over JobConfig defaults; submitted labels over template labels), and the lastUpdated stamping rule for create / schedule changed / unchanged x user-supplied lastUpdated; TLC enumerates ~16 800 requests, checks that defaulting is a fixpoint on the specification, and every case is sent as a raw AdmissionRequest (optional fields really absent) through the real mutating (and for configName also validating) webhooks, the patch applied with the API server's JSON-patch library; TLC judges defaulted object = Mutate(case), second pass = first, patch applies and equals the typed defaulted object."
 LEVEL_TEXT["C17"] = "The same specification defines which single-field Job updates must be refused (task template, parallelism, attempts, retry delay, type, option values, substitutions, JobConfig UID label always; start policy once started; kill timestamp once passed) and the implication chain accepted => loadable by the cron scheduler => bumpable => instantiable => the Job passes defaulting and validation => task objects can be built; TLC enumerates every (field, changed, how, started, kill passed) update and a corpus of 2 065 cron schedules (34 expression shapes incl. H forms, macros, L/W/#, ?, year-bounded and never-matching ones x 15 time-zone forms x 2 formats x hashing on/off, multi-expression lists); each update goes through the real validating webhook and each corpus element through the real JobConfig webhooks, cronschedule.New / Bump, NewJobFromJobConfig, the Job webhooks and NewPod; TLC compares the decisions."
+_STATUS_TEXT = (" A functional TLA+ specification of the status derivation chain (Status.tla: Pod -> task status -> recorded TaskRef with retained timestamps and DeletedStatus -> "
+                "per-index status -> condition with the deletion override -> coarse state and phase) is checked by TLC on 16 276 enumerated cases (Pod shapes x existing refs; Job context x strategy x maxAttempts x "
+                "recorded refs per index) against the laws this property demands of it, and every case is evaluated on the real PodTask.GetTaskRef, GenerateTaskRefs and UpdateJobStatusFromTaskRefs; TLC judges the laws on the real outputs "
+                "(and reports any difference from the specification's functions as conformance drift).")
+LEVEL_TEXT["C10"] += _STATUS_TEXT
+LEVEL_TEXT["C11"] += _STATUS_TEXT
 DESIGN_REF = {p: "DESIGN.md section 4 (%s)" % p for p in ["C%02d" % i for i in range(1, 21)]}
 TECH_FUN = "explicit TLA+ functional specification; TLC enumerates the case space (one state per case, the specification's own laws as invariants); every case is evaluated on the real code and a log-driven TLA+ monitor judges the observations against the specification"
 NOTE_FUN = ("Trusted: TLC, the Json/IOUtils community modules, Go runtime, the harness's concretisation of abstract cases into real objects / requests and its projection of results. "
